@@ -74,7 +74,7 @@ def merged_classes(extra):
 
 # ---------------------------------------------------------------------------------------------
 # C08 authorization
-C08_QUICK = {"ThinA10": 4, "ThinA1": 60, "ThinA13": 400, "ThinB1": 10, "ThinB2": 20, "ThinD": 16, "NRand": 300}
+C08_QUICK = {"ThinA10": 8, "ThinA1": 120, "ThinA13": 800, "ThinB1": 20, "ThinB2": 20, "ThinD": 32, "NRand": 200}
 C08_THOROUGH = {"ThinA10": 1, "ThinA1": 1, "ThinA13": 12, "ThinB1": 1, "ThinB2": 1, "ThinD": 2, "NRand": 4000}
 
 
@@ -93,14 +93,14 @@ def C08(ctx):
     # S (2) + G: the bounded universe of cases; laws checked on each, each printed with the expected verdict
     consts = dict(C08_QUICK if q else C08_THOROUGH, Seed=ctx.seed % 65521)
     out_file = ctx.wpath("gen.out")
-    r = tlc("Auth", "GenAuth", workers=4, consts=consts, timeout=6000, out_file=out_file, heap="4g")
+    r = tlc("Auth", "GenAuth", workers=6 if q else 4, consts=consts, timeout=6000, out_file=out_file, heap="4g")
     os.unlink(out_file)
     tlc_must_pass(r, "GenAuth (laws of Auth on the bounded universe of cases)", required_actions=["Expand"])
     ctx.add_tlc(r)
     cases = r.printed("B")
     r.out = ""
     fams = collections.Counter(c["fam"] for c in cases)
-    if len(cases) < (3000 if q else 50000):
+    if len(cases) < (12000 if q else 50000):
         raise ToolError("GenAuth produced only %d cases" % len(cases))
     # non-vacuity: every family, every target kind with both verdicts, every creation verdict
     for f in ("A1", "A2", "A3", "A4", "B1", "B2", "C", "D", "E"):
@@ -125,7 +125,7 @@ def C08(ctx):
     ctx.sample({"case": next(c for c in cases if c["fam"] == "B2" and c["exp"]["outcome"] == "unauthorized")})
     ctx.sample({"case": next(c for c in cases if c["fam"] == "D" and c["target"]["method"] == "m_self" and c["exp"]["outcome"] == "ok")})
     ctx.sample({"case": next(c for c in cases if c["fam"] == "C" and len(c["frames"]) == 3)})
-    parts = 1 if q else 4
+    parts = 4
     mism, extra = replay_cases(ctx, "auth", cases, [], "authorization case", key=c08_key, parts=parts)
     classes = merged_classes(extra)
 
@@ -164,7 +164,11 @@ def C08(ctx):
                     "the receipt class compared with the specification's verdict; distinct = distinct cases other than the bare "
                     "AllowAll / DenyAll transaction-level ones"
                     % (3 if q else 4, " (thinned)" if q else " (3 proofs: one in 12)",
-                       "quick tier: families thinned by a seeded residue class (A1 1/4, 1/60 and 1/400 for 1, 2, 3 proofs, B1 1/10, B2 1/20, D 1/16)" if q else
+                       "quick tier: never thinned are the boundary products (A1: no proof, one proof x every requirement about its "
+                       "resource, two proofs of one resource in one frame x every amount-of requirement; A2, A3, A4, E; B1 lists of "
+                       "length <= 2; B2 depth-2 trees x 3 target kinds; D every role configuration x method x shape with no / all proofs); "
+                       "only the bulk is thinned by a seeded residue class (A1 rest 1/8, 1/120, 1/800; B1 length-3 lists 1/20; B2 depth-3 "
+                       "trees 1/20; D rest 1/32; 200 random cases)" if q else
                        "all cases of A1 (<= 2 proofs), A2, A3, A4, B1, B2, E; D one in 2; 3-proof placements one in 12")}
 
 
@@ -193,6 +197,17 @@ def C51(ctx):
     g.out = ""
     if len(beh) < (200 if q else 2500):
         raise ToolError("GenLocking produced only %d behaviours" % len(beh))
+    # systematic families, never sampled: (a) every operation x item x value x caller as a one-step behaviour from the
+    # all-unlocked and the all-locked state; (b) a transaction locks one item, then every operation x caller follows
+    sysb = []
+    for cfg, n in (("GenLockingAll", 184), ("GenLockingAll2", 460)):
+        gs = tlc("Locking", "GenLocking", cfg=cfg, workers=2, coverage=False, timeout=3000)
+        got = gs.printed("B")
+        if not gs.ok or len(got) != n:
+            raise ToolError("%s produced %d of %d behaviours" % (cfg, len(got), n))
+        sysb += got
+    n_random = len(beh)
+    beh = sysb + beh
     ops = collections.Counter((e["item"], e["op"], e["vd"]) for b in beh for e in b[1:])
     for item in ("field", "kv", "md", "roy"):
         for op in ("update", "lock"):
@@ -201,11 +216,11 @@ def C51(ctx):
     if ops[("owner", "lock", "ok")] == 0 or ops[("owner", "update", "auth")] == 0 or ops[("owner", "update", "ok")] == 0:
         raise ToolError("vacuous behaviours: owner role")
     locked_then_tried = sum(1 for b in beh for i, e in enumerate(b[1:], 1) if e["item"] in b[i - 1]["locked"] and b[i - 1]["locked"][e["item"]])
-    if locked_then_tried < len(beh):
+    if locked_then_tried < n_random:
         raise ToolError("vacuous behaviours: only %d attempts on locked items" % locked_then_tried)
-    ctx.sample({"behaviour": next(b for b in beh if any(e["vd"] == "locked" for e in b) and any(e["op"] == "lock" and e["vd"] == "ok" for e in b))})
+    ctx.sample({"behaviour": next(b for b in beh[len(sysb):] if any(e["vd"] == "locked" for e in b) and any(e["op"] == "lock" and e["vd"] == "ok" for e in b))})
     ctx.sample({"behaviour": next(b for b in beh if any(e["op"] == "lockwrite" and e["vd"] == "ok" for e in b))})
-    parts = 1 if q else 4
+    parts = 2 if q else 4
     mon = ctx.wpath("monitor")
 
     def lock_key(o, b):
@@ -250,7 +265,7 @@ def C51(ctx):
 
     # binding self-tests: (1) wrong expectations in a behaviour are reported, (2) a recording in which a later transaction
     # rewrites / unlocks / deletes a locked substate is rejected at that transaction
-    bad = json.loads(json.dumps(beh[:40]))
+    bad = json.loads(json.dumps(beh[len(sysb):len(sysb) + 40]))
     i1, s1 = next((i, j) for i, b in enumerate(bad) for j, e in enumerate(b) if e["vd"] == "locked")
     bad[i1][s1]["vd"] = "ok"
     i2, s2 = next((i, j) for i, b in enumerate(bad) for j, e in enumerate(b) if j > 0 and e["vd"] == "ok" and e["op"] == "lock" and i != i1)
@@ -280,14 +295,16 @@ def C51(ctx):
             "monitor": {"transactions": n_tx, "protocol_update_events": len(events) - n_tx, "substate_writes": n_w,
                         "scenario_stats": stats},
             "rule": "MCLocking: every state (6 items x locked x value) x every operation (update / remove / lock / lock-and-write "
-                    "through one handle) x every caller (no badge, either badge, both); %d seeded random walks of %d operations from "
+                    "through one handle) x every caller (no badge, either badge, both); systematically every operation x item x value x "
+                    "caller as a one-step behaviour from the all-unlocked and the all-locked state (184) and after a transaction that "
+                    "locked one of the five lockable items (460); %d seeded random walks of %d operations from "
                     "random initial states (items created locked / unlocked, present / absent), each operation one transaction on a "
                     "component of the native test blueprint with metadata, royalty and role-assignment modules (all 6 items), and the "
                     "walk restricted to metadata / owner / role again on a fresh fungible resource manager (role = minter) and to "
                     "metadata / owner on a fresh account; outcome class and the (lock flag, value) of the host's items read back from "
                     "the database after every step; global monitor over these %d "
                     "transactions and the %d transactions of the repository's scenarios under all protocol versions%s; distinct = "
-                    "distinct walks" % (len(beh), k, n_tx - stats["scenario_txs"], stats["scenario_txs"],
+                    "distinct walks" % (n_random, k, n_tx - stats["scenario_txs"], stats["scenario_txs"],
                                         " (max_transaction left out in the quick tier)" if q else "")}
 
 
